@@ -86,6 +86,8 @@ fn exercise(sc: &Scanner, input: &str) -> Vec<(usize, usize, usize, usize, usize
     out
 }
 
+const HAMMER: &str = "\u{e9}\u{20ac}\u{e4}\u{2192}a\u{df}\u{20ac}\u{e9}\u{2192}\u{fc}\u{20ac}b\u{e9}\u{2192}\u{e4}\u{20ac}\u{e9}c\u{2192}\u{df}";
+
 const INPUTS: &[&str] = &["aab\"x y\"c\u{e9}", "ab a\"", "\u{e9}aa", ""];
 
 fn main() {
@@ -98,19 +100,34 @@ fn main() {
     const NV: u64 = 2;
     let variants: Vec<u64> = (0..n_threads).map(|_| splitmix(&mut x) % NV).collect();
     let shared_variant = splitmix(&mut x) % NV;
-    let reference: Vec<Scanner> = (0..NV).map(|v| ScannerBuilder::new().add_scanner_modes(&modes(v)).build_uncached().unwrap()).collect();
-    let fail_ref: Vec<bool> = (0..NV).map(|v| ScannerBuilder::new().add_scanner_modes(&failing_modes(v)).build_uncached().is_err()).collect();
+    // build only the references the scenario needs (every build costs seconds under Miri)
+    let needs_private = matches!(scenario, 0 | 1 | 3);
+    let needs_fail = matches!(scenario, 1 | 3);
+    let reference: Vec<Option<Scanner>> = (0..NV)
+        .map(|v| {
+            if v == shared_variant || (needs_private && variants.contains(&v)) {
+                Some(ScannerBuilder::new().add_scanner_modes(&modes(v)).build_uncached().unwrap())
+            } else {
+                None
+            }
+        })
+        .collect();
+    let fail_ref: Vec<bool> = (0..NV)
+        .map(|v| !needs_fail || ScannerBuilder::new().add_scanner_modes(&failing_modes(v)).build_uncached().is_err())
+        .collect();
     let shared = Arc::new(ScannerBuilder::new().add_scanner_modes(&modes(shared_variant)).build().expect("shared builds"));
     let mut handles = Vec::new();
     for t in 0..n_threads {
         let v = variants[t as usize];
         let input = INPUTS[(splitmix(&mut x) % INPUTS.len() as u64) as usize];
         let k = (splitmix(&mut x) % 3) as usize;
-        let exp_private = scan(&reference[v as usize], input, 0, 64);
-        let exp_shared = scan(&reference[shared_variant as usize], input, 0, 64);
-        let exp_shared_m1 = scan(&reference[shared_variant as usize], input, 1, 64);
+        let exp_private = reference[v as usize].as_ref().map(|r| scan(r, input, 0, 64)).unwrap_or_default();
+        let shared_ref = reference[shared_variant as usize].as_ref().unwrap();
+        let exp_shared = scan(shared_ref, input, 0, 64);
+        let exp_shared_m1 = scan(shared_ref, input, 1, 64);
         let exp_fail = fail_ref[v as usize];
-        let exp_exercise = exercise(&reference[shared_variant as usize], input);
+        let exp_exercise = exercise(shared_ref, input);
+        let exp_hammer = scan(shared_ref, HAMMER, 0, 64);
         let shared = shared.clone();
         handles.push(std::thread::spawn(move || {
             match scenario {
@@ -139,6 +156,13 @@ fn main() {
                     assert_eq!(exercise(&shared, input), exp_exercise, "shared iterator API differs");
                     let sc = ScannerBuilder::new().add_scanner_modes(&modes(shared_variant)).build().expect("builds");
                     assert_eq!(exercise(&sc, input), exp_exercise, "cached iterator API differs");
+                }
+                // many class questions about non-ASCII characters on one shared compiled scanner:
+                // anything memoised inside the shared matcher is hammered from three threads
+                5 => {
+                    for _ in 0..2 {
+                        assert_eq!(scan(&shared, HAMMER, 0, 64), exp_hammer, "shared scan of non-ASCII text differs");
+                    }
                 }
                 // mix
                 _ => {
